@@ -21,9 +21,101 @@ def load_mutants(prop=None):
     return [m for m in ms if prop is None or m['prop'] == prop]
 
 
+def patch_overlay(repo, patch_text):
+    """apply a unified diff in memory to the current (LF-normalised) sources -> overlay dict, or None if it does not apply"""
+    import re
+    overlay = {}
+    cur = None
+    hunks = {}
+    plines = patch_text.replace('\r\n', '\n').split('\n')
+    if plines and plines[-1] == '':
+        plines.pop()
+    for line in plines:
+        m = re.match(r'^\+\+\+ b/(\S+)', line)
+        if m:
+            cur = m.group(1)
+            hunks[cur] = []
+            continue
+        if line.startswith('--- ') or line.startswith('diff --git') or line.startswith('index ') or cur is None:
+            continue
+        h = re.match(r'^@@ -(\d+)(?:,(\d+))? \+(\d+)(?:,(\d+))? @@', line)
+        if h:
+            hunks[cur].append([int(h.group(1)), []])
+            continue
+        if hunks[cur] and (line[:1] in (' ', '+', '-') or line == ''):
+            if line.startswith('\\'):
+                continue
+            hunks[cur][-1][1].append(line if line else ' ')
+    for rel, hs in hunks.items():
+        if not repo.exists(rel):
+            return None
+        src = repo.source(rel).split('\n')
+        out, pos = [], 0          # pos: index into src already consumed
+        for start, lines in hs:
+            # trailing artefact: the split of the final newline yields one empty context line
+            while lines and lines[-1] == ' ' and start - 1 + sum(1 for l in lines if l[:1] in (' ', '-')) > len(src):
+                lines = lines[:-1]
+            i = start - 1
+            if i < pos:
+                return None
+            out.extend(src[pos:i])
+            for l in lines:
+                tag, text = l[:1], l[1:].rstrip('\r')
+                if tag == ' ':
+                    if i >= len(src) or src[i].rstrip('\r') != text:
+                        return None
+                    out.append(src[i])
+                    i += 1
+                elif tag == '-':
+                    if i >= len(src) or src[i].rstrip('\r') != text:
+                        return None
+                    i += 1
+                else:
+                    out.append(text)
+            pos = i
+        out.extend(src[pos:])
+        overlay[rel] = '\n'.join(out)
+    for rel, src in overlay.items():
+        try:
+            compile(src, rel, 'exec')
+        except SyntaxError:
+            return None
+    return overlay
+
+
+def corpus_variants(prop):
+    """the independently produced changes kept under /verif/seeded (breaking) and /verif/twins (behaviour-preserving) as additional
+    variants of the thorough tier: a breaking change recorded as reported by this property must still be reported (by one of the
+    recorded rules), a preserving one of this property must still be silent"""
+    import glob
+    import json
+    from ..report import VERIF_ROOT
+    out = []
+    for mp in sorted(glob.glob(os.path.join(VERIF_ROOT, 'seeded', '*', 'meta.json'))):
+        try:
+            meta = json.load(open(mp))
+        except Exception:
+            continue
+        rules = sorted({r.split('@')[0] for r in meta.get('detected_by', {}).get(prop, [])})
+        if rules:
+            out.append({'prop': prop, 'id': 'seed:' + meta.get('id', '?'), 'kind': 'K', 'edits': ('PATCH', os.path.join(os.path.dirname(mp), 'patch.diff')),
+                        'rule': rules})
+    for mp in sorted(glob.glob(os.path.join(VERIF_ROOT, 'twins', '*', 'meta.json'))):
+        try:
+            meta = json.load(open(mp))
+        except Exception:
+            continue
+        if meta.get('property') == prop and not meta.get('false_alarms') and not meta.get('analysis_errors'):
+            out.append({'prop': prop, 'id': 'twin:' + meta.get('id', '?'), 'kind': 'T', 'edits': ('PATCH', os.path.join(os.path.dirname(mp), 'patch.diff'))})
+    return out
+
+
 def apply(repo, m):
     """-> overlay dict or None when the anchor text is no longer present (stale)."""
     overlay = {}
+    if isinstance(m['edits'], tuple) and m['edits'][0] == 'PATCH':
+        with open(m['edits'][1], newline='') as f:
+            return patch_overlay(repo, f.read())
     if m['edits'] == 'REFORMAT':
         # the whole tree re-emitted by ast.unparse: formatting, comments and line numbers change, behaviour does not
         import ast
@@ -86,8 +178,10 @@ def evaluate(args):
     return (m['id'], 'ok', '')
 
 
-def run(prop=None, root=None, jobs=None):
+def run(prop=None, root=None, jobs=None, corpus=False):
     ms = load_mutants(prop)
+    if corpus and prop is not None:
+        ms = ms + corpus_variants(prop)
     jobs = jobs or min(16, max(1, len(ms)))
     bases = {p: base_keys(p, root) for p in sorted({m['prop'] for m in ms})}
     if len(ms) <= 2:
@@ -99,7 +193,7 @@ def run(prop=None, root=None, jobs=None):
 
 
 def validate(prop, ctx, out=print):
-    ms, res = run(prop, ctx.repo.root)
+    ms, res = run(prop, ctx.repo.root, corpus=True)
     bad = [(m, r) for m, r in zip(ms, res) if r[1] not in ('ok', 'stale')]
     live = [r for r in res if r[1] == 'ok']
     stale = [r for r in res if r[1] == 'stale']
